@@ -197,13 +197,24 @@ def check(run: lib.Run, audit: dict) -> int:
     run.assumptions = ["as C01"]
     if not audit["ok"]:
         raise lib.CheckError(f"Lean build/audit failed at {audit['stage']}: {audit.get('log') or audit.get('forbidden') or audit.get('bad_axioms')}")
-    run_cases(run, audit, scale=run.boost)
+    # what the sinks are handed (`labels = …`, `payload = …`) and the Decision they are computed from, as the engine is written NOW, are
+    # proved to be the events / the Decision of the model's finishDecision (C01's obligation; its comparison with CPython runs there)
+    from props import c01 as _c01
+    ok_tr, _, detail_tr, tr = _c01.translated_obligation(run, audit, differential=False)
+    run_cases(run, audit, scale=run.boost * (1 if ok_tr else 2))
     violations = []
-    if run.disagreements and not run.spec_failures:
+    if (run.disagreements or not ok_tr) and not run.spec_failures:
         run_cases(run, audit, scale=4)
     if run.spec_failures:
         path = run.write_replay("spec", {"what": "C11 violated on the real engine", "case": run.spec_failures[0], "count": len(run.spec_failures)})
         violations.append((path, True))
+    elif not ok_tr:
+        path = run.write_replay("obligation", {"what": "per-run obligation Rbacx/Run/C01_translated.lean no longer checks: the translated source of the "
+                                               "engine's decision core (gate, Decision, audit payload, metric labels) is not proved equal to the "
+                                               "model's finishDecision, the object Rbacx.C11.c11_one_audit_one_metric is about; the widened search "
+                                               "found no case on which the explanation or the audit trail is untruthful",
+                                               "translation": tr, "lean": detail_tr[-1500:], "first_disagreement": run.disagreements[:1]})
+        violations.append((path, False))
     elif run.disagreements:
         path = run.write_replay("correspondence", {"what": "model and engine disagree on (rule_id, reason, policy_id, obligations, challenge, events); "
                                                    "theorems Rbacx.C11.* no longer speak about this code", "first": run.disagreements[0],
